@@ -742,9 +742,51 @@ def unfq(h):
     return None if h == "~" else ("" if h in ("_", "-") else bytes.fromhex(h).decode("utf-8", errors="replace"))
 
 
-def fs_line(masked, own, cc, cands, ops):
+def fs_line(masked, own, cc, cands, ops, anon=False):
     cs = ";".join("%d.%s.%d.%s" % (i, k, st, enc_list(l)) for (i, k, st, l) in cands) or "-"
-    return "FS %s %s %s %s %s" % (enc_list(masked), enc_list(own), cc, cs, "/".join(ops) or "-")
+    return "FS %s %s %s %s %s%s" % (enc_list(masked), enc_list(own), cc, cs, "/".join(ops) or "-", " anon" if anon else "")
+
+
+# auth levels (server/auth/auth.go): sess.authLvl is an int; 'ordinary' = everything that is not LevelRoot
+F_LEVEL_NAMES = {0: "LevelNone", 10: "LevelAnon", 20: "LevelAuth", 30: "LevelRoot"}
+F_LEVELS_JUNK = [-10, -1, 1, 5, 15, 19, 21, 25, 29, 31, 40, 100, 1000]
+F_ROOT = 30
+
+
+def f_sref(ref):
+    """session reference of a request -> (id, level): <id> or <id>l<level>; a bare id means 1, 2 -> auth, 3 -> root"""
+    if "l" in ref:
+        a, b = ref.split("l", 1)
+        return int(a), int(b)
+    return int(ref), (30 if int(ref) == 3 else 20)
+
+
+def f_level_name(lvl):
+    return "%s (%d)" % (F_LEVEL_NAMES[lvl], lvl) if lvl in F_LEVEL_NAMES else "%d (not a defined level)" % lvl
+
+
+def f_rand_level(rng):
+    r = rng.random()
+    if r < 0.3:
+        return 10
+    if r < 0.5:
+        return 0
+    if r < 0.7:
+        return 20
+    if r < 0.8:
+        return 30
+    return rng.choice(F_LEVELS_JUNK)
+
+
+def f_rand_sref(rng, levels):
+    """a session of the scenario: ids 1..3 keep their classic meaning, 4.. carry an explicit level (fixed per id
+    within the scenario by [levels], now and then re-assigned: a session may log in again)"""
+    i = rng.choice([1, 1, 2, 3, 4, 4, 5, 5, 6])
+    if i <= 3 and rng.random() < 0.7:
+        return str(i)
+    if i not in levels or rng.random() < 0.08:
+        levels[i] = f_rand_level(rng)
+    return "%dl%d" % (i, levels[i])
 
 
 def f_cands(rng, own, extra=()):
@@ -773,30 +815,64 @@ def gen_search_scenario(rng):
     cc = rng.choice(["US", "US", "US", "DE", "-"])
     cands = f_cands(rng, own, extra=own)
     ops = []
+    levels = {}
+    lv = rng.random() < 0.5           # half of the scenarios: sessions of every auth level
+    anon = lv and rng.random() < 0.3  # ... of which some with the level-10 sessions logged in by the real code
     for _ in range(rng.randrange(2, 6)):
-        s = rng.choice([1, 1, 1, 2, 3])
+        s = f_rand_sref(rng, levels) if lv else str(rng.choice([1, 1, 1, 2, 3]))
         q = f_query(rng, masked, own)
         k = rng.random()
         if k < 0.45:
-            ops.append("d.%d.%s.~" % (s, fq(q)))
+            ops.append("d.%s.%s.~" % (s, fq(q)))
         elif k < 0.85:
-            ops.append("d.%d.~.%s" % (s, fq(q)))
+            ops.append("d.%s.~.%s" % (s, fq(q)))
         else:
-            ops.append("d.%d.%s.%s" % (s, fq(f_query(rng, masked, own)), fq(q)))
-        ops.append("g.%d" % s)
+            ops.append("d.%s.%s.%s" % (s, fq(f_query(rng, masked, own)), fq(q)))
+        ops.append("g.%s" % s)
         r = rng.random()
         if r < 0.3:
-            ops.append("g.%d" % rng.choice([1, 2, 3]))
+            ops.append("g.%s" % (f_rand_sref(rng, levels) if lv else str(rng.choice([1, 2, 3]))))
         elif r < 0.4:
             ops.append("t")
-            ops.append("g.%d" % s)
+            ops.append("g.%s" % s)
         elif r < 0.47:
             ops.append("u")
-            ops.append("g.%d" % s)
+            ops.append("g.%s" % s)
         elif r < 0.52:
-            ops.append("d.%d.%s.~" % (s, fq("␡")))
-            ops.append("g.%d" % s)
-    return fs_line(masked, own, cc, cands, ops)
+            ops.append("d.%s.%s.~" % (s, fq("␡")))
+            ops.append("g.%s" % s)
+    return fs_line(masked, own, cc, cands, ops, anon)
+
+
+def fs_level_cases_c19(rng, quick):
+    """'ordinary users are never shown suspended or deleted accounts and topics', for EVERY auth level: a query that
+    matches an active, a suspended and a soft-deleted account and an active, a suspended and a soft-deleted topic,
+    stored as the public or as the private query, searched from a session of each level (none, anon, auth, root and
+    numbers that are no level), alone, next to a root session, after a change of level of the same session, after
+    unload; once more with the level-10 sessions logged in by the real anonymous account creation / token login"""
+    cases = []
+    masked, own = ["org"], ["flowers", "org:acme"]
+    cands = [(1, "u", 0, ["travel", "flowers"]), (2, "u", 1, ["travel", "flowers"]), (3, "u", 2, ["travel", "flowers"]),
+             (4, "t", 0, ["travel", "flowers"]), (5, "t", 1, ["travel", "flowers"]), (6, "t", 2, ["travel", "flowers"]),
+             (7, "u", 1, ["basic:alice"]), (8, "t", 2, ["basic:alice", "tel:+16502530000"]), (9, "u", 0, ["chess"])]
+    queries = ["travel", "flowers", "travel,chess", "travel flowers", "alice", "6502530000,travel"]
+    levels = [0, 10, 20, 30] + (rng.sample(F_LEVELS_JUNK, 4) if quick else F_LEVELS_JUNK)
+    for lvl in levels:
+        for pub in (0, 1):
+            q = rng.choice(queries) if quick else None
+            for q in ([q] if quick else queries):
+                s = "4l%d" % lvl
+                d = "d.%s.%s.~" % (s, fq(q)) if pub else "d.%s.~.%s" % (s, fq(q))
+                other = rng.choice([x for x in levels if x != lvl])
+                ops = [d, "g.%s" % s, "g.3", "g.5l%d" % other, "g.4l%d" % other, "g.%s" % s, "u", "g.%s" % s]
+                cases.append(fs_line(masked, own, rng.choice(["US", "US", "-"]), cands, ops))
+    # the level-10 sessions through the real code: {acc user=new scheme=anonymous login=true}, {login scheme=token}
+    for q in (queries[:3] if quick else queries):
+        for pub in (0, 1):
+            d = "d.1l10.%s.~" % fq(q) if pub else "d.1l10.~.%s" % fq(q)
+            ops = [d, "g.1l10", "g.2l10", "g.3", "g.4l0", "t", "g.1l10", "u", "g.2l10"]
+            cases.append(fs_line(masked, own, "US", cands, ops, anon=True))
+    return cases
 
 
 def fs_corner_cases(rng, quick):
@@ -946,12 +1022,26 @@ def fs_parse(case, out):
     return masked, own, cc, cands, steps
 
 
+def f_reply_level(reply, lvl):
+    """(reply, level the session really holds): the driver appends ~lvl<n> when the level which the real login code
+    gave the session is not the one the request names"""
+    if "~lvl" in reply:
+        reply, n = reply.split("~lvl", 1)
+        try:
+            lvl = int(n)
+        except ValueError:
+            pass
+    return reply, lvl
+
+
 def f_show_op(op):
     f = op.split(".")
     if f[0] == "d":
-        return "{set desc public=%r private=%r} from session %s%s" % (unfq(f[2]), unfq(f[3]), f[1], " (root)" if f[1] == "3" else "")
+        i, lvl = f_sref(f[1])
+        return "{set desc public=%r private=%r} from session %d (auth level %s)" % (unfq(f[2]), unfq(f[3]), i, f_level_name(lvl))
     if f[0] == "g":
-        return "{get what=sub} from session %s%s" % (f[1], " (root)" if f[1] == "3" else "")
+        i, lvl = f_sref(f[1])
+        return "{get what=sub} from session %d (auth level %s)" % (i, f_level_name(lvl))
     return {"u": "unload the fnd topic", "t": "Topic.tags := the user's stored tags"}[f[0]]
 
 
@@ -974,7 +1064,7 @@ def fs_monitor(case, out, table=None):
     res = []
     for law, c, txt in fails:
         n = int(txt.split()[1])          # "request <n> of the scenario: ..."
-        short = " ".join(w[:5] + ["/".join(w[5].split("/")[:n])])
+        short = " ".join(w[:5] + ["/".join(w[5].split("/")[:n])] + w[6:])
         table.setdefault(short, "FS " + "/".join(out[3:].split("/")[:n]))
         res.append((law, short, txt))
     return res
@@ -1006,13 +1096,15 @@ def fs_monitor_full(case, out):
             if fails:
                 break
             continue
-        s = int(f[1])
-        root = s == 3
+        s, lvl = f_sref(f[1])
+        reply, lvl = f_reply_level(reply, lvl)
+        # 'ordinary users': every session whose level is not LevelRoot - none, anon, auth, and numbers that are no level
+        root = lvl == F_ROOT
         if not root:
             for (m, req, opt, active) in calls:
                 if not active:
-                    bad("nonroot-search-active-only", "store.%s called with activeOnly=false for a session that is not root"
-                        % ("FindUsers" if m == "U" else "FindTopics"))
+                    bad("nonroot-search-active-only", "store.%s called with activeOnly=false for a session of auth level %s, which is not root"
+                        % ("FindUsers" if m == "U" else "FindTopics", f_level_name(lvl)))
                     break
         found = []
         if reply.startswith("m"):
@@ -1020,8 +1112,9 @@ def fs_monitor_full(case, out):
         if not root:
             for x in found:
                 if x.isdigit() and int(x) in cands and cands[int(x)][1] != 0:
-                    bad("nonroot-never-shown-inactive", "%s %s (%s, tags %r) is shown to a session that is not root"
-                        % ("account" if cands[int(x)][0] == "u" else "topic", x, "suspended" if cands[int(x)][1] == 1 else "deleted", cands[int(x)][2]))
+                    bad("nonroot-never-shown-inactive", "%s %s (%s, tags %r) is shown to a session of auth level %s, which is not root"
+                        % ("account" if cands[int(x)][0] == "u" else "topic", x, "suspended" if cands[int(x)][1] == 1 else "deleted", cands[int(x)][2],
+                           f_level_name(lvl)))
                     break
         # the query that is active for this session, as the topic holds it (printed by the driver)
         q, wl = (pubs[s - 1], True) if pubs[s - 1] is not None else (priv, False)
@@ -1105,6 +1198,7 @@ def gen_search_cases(ctx):
             cases.append("QR US@%s %d %s" % (cfg, rng.randrange(2), hx(a + rng.choice([" ", ","]) + b)))
     # whole searches on a real fnd topic
     cases += fs_corner_cases(rng, quick)
+    cases += fs_level_cases_c19(rng, quick)
     for _ in range(FS_QUICK if quick else FS_THOROUGH):
         cases.append(gen_search_scenario(rng))
     return cases
@@ -1346,17 +1440,20 @@ def neighbours(ctx, case):
     elif w[0] == "FS":
         ops = [] if w[5] == "-" else w[5].split("/")
         for i in range(len(ops)):
-            res.append(" ".join(w[:5] + ["/".join(ops[:i] + ops[i + 1:]) or "-"]))
+            res.append(" ".join(w[:5] + ["/".join(ops[:i] + ops[i + 1:]) or "-"] + w[6:]))
         for i in range(1, len(ops)):
-            res.append(" ".join(w[:5] + ["/".join(ops[:i])]))
-        # the same queries through the other field / from the other session
+            res.append(" ".join(w[:5] + ["/".join(ops[:i])] + w[6:]))
+        # the same queries through the other field / from the other session / from a session of another auth level
         for i, op in enumerate(ops):
             f = op.split(".")
             if f[0] == "d":
                 sw = "d.%s.%s.%s" % (f[1], f[3], f[2])
-                res.append(" ".join(w[:5] + ["/".join(ops[:i] + [sw] + ops[i + 1:])]))
+                res.append(" ".join(w[:5] + ["/".join(ops[:i] + [sw] + ops[i + 1:])] + w[6:]))
             elif f[0] == "g":
-                res.append(" ".join(w[:5] + ["/".join(ops[:i] + ["t", op] + ops[i + 1:])]))
+                res.append(" ".join(w[:5] + ["/".join(ops[:i] + ["t", op] + ops[i + 1:])] + w[6:]))
+                sid = f_sref(f[1])[0]
+                for lvl in (0, 10, 20, 31):
+                    res.append(" ".join(w[:5] + ["/".join(ops[:i] + ["g.%dl%d" % (sid, lvl)] + ops[i + 1:])] + w[6:]))
     elif w[0] == "TS":
         ops = [] if w[4] == "-" else w[4].split("/")
         for i in range(len(ops)):
